@@ -874,11 +874,9 @@ func (c *otApplyContext) ligateInput(count int, matchPositions [maxContextLength
 
 func (c *otApplyContext) recurse(subLookupIndex uint16) bool {
 	if c.nestingLevelLeft == 0 || c.recurseFunc == nil || c.buffer.maxOps <= 0 {
-		if c.buffer.maxOps <= 0 {
-			c.buffer.maxOps--
-			return false
-		}
+		// refuse to nest lookups deeper (a lookup may reference itself)
 		c.buffer.maxOps--
+		return false
 	}
 
 	c.nestingLevelLeft--
